@@ -358,3 +358,23 @@ func TestD16NegativeIntegerLiterals(t *testing.T) {
 		t.Fatalf("unexpected expression shape: %v", e)
 	}
 }
+
+// D17 (C14): a byte literal with an odd number of digits is malformed wherever it stands; it used to be
+// split into hex:1234 and the integer 5 and accepted as two terms of a predicate.
+func TestD17OddLengthByteLiteral(t *testing.T) {
+	for _, src := range []string{`f(hex:12345)`, `f(hex:123)`, `f("a", hex:1)`} {
+		if f, err := parser.FromStringFact(src); err == nil {
+			t.Fatalf("%s accepted as %v", src, f)
+		}
+	}
+	if _, err := parser.FromStringCheck(`check if b($x, hex:12345)`); err == nil {
+		t.Fatal("check with an odd-length byte literal accepted")
+	}
+	if _, err := parser.FromStringCheck(`check if b($x), $x == hex:12345`); err == nil {
+		t.Fatal("expression with an odd-length byte literal accepted")
+	}
+	f, err := parser.FromStringFact(`f(hex:1234, 5)`)
+	if err != nil || len(f.Predicate.IDs) != 2 {
+		t.Fatalf("f(hex:1234, 5): %v %v", f, err)
+	}
+}
